@@ -37,6 +37,7 @@ INT = _Prim("Int")
 BOOL = _Prim("Bool")
 ATOM = _Prim("Atom")
 NONE = _Prim("None")
+MONEY = _Prim("Money")  # a real on the penny grid (D1): stored as an integer number of pennies, read as to_real(p)/100
 CHARS = _Prim("Chars")  # python str modelled as (length, Int->Int array): C19
 
 
@@ -215,7 +216,7 @@ def z3sorts(sort):
     """flatten a sort into z3 component sorts"""
     if sort in (REAL,):
         return [z3.RealSort()]
-    if sort in (INT, ATOM) or isinstance(sort, (Ref, ListOf, MapOf)):
+    if sort in (INT, ATOM, MONEY) or isinstance(sort, (Ref, ListOf, MapOf)):
         return [z3.IntSort()]
     if sort == BOOL:
         return [z3.BoolSort()]
@@ -244,6 +245,15 @@ def flatten(v, sort=None):
         if v.sort not in (INT, BOOL):
             raise EngineLimit("cannot store %s as Int" % v.sort)
         return [zr(v.t)]
+    if sort == MONEY:
+        if v.sort not in (REAL, INT, BOOL):
+            raise EngineLimit("cannot store %s as Money" % v.sort)
+        if is_conc_num(v.t):
+            p = Fraction(v.t) * 100
+            if p.denominator != 1:
+                raise EngineLimit("constant %s is not on the penny grid" % v.t)
+            return [z3.IntVal(int(p))]
+        return [pennies(zreal(v.t))]
     if sort == ATOM:
         if v.sort != ATOM:
             raise EngineLimit("cannot store %s as Atom" % v.sort)
@@ -276,6 +286,14 @@ def flatten(v, sort=None):
     raise EngineLimit("flatten %s" % sort)
 
 
+def pennies(t):
+    """real term on the penny grid -> integer pennies; recognises to_real(p)/100 so that read-then-write is the identity"""
+    s = z3.simplify(t * 100)
+    if z3.is_app(s) and s.decl().kind() == z3.Z3_OP_TO_REAL:
+        return s.arg(0)
+    return z3.ToInt(s)
+
+
 def default_term(zsort):
     if zsort == z3.RealSort():
         return z3.RealVal(0)
@@ -291,6 +309,8 @@ def unflatten(sort, terms):
     terms = list(terms)
 
     def go(s):
+        if s == MONEY:
+            return SV(REAL, z3.ToReal(terms.pop(0)) / 100)
         if s in (REAL, INT, BOOL, ATOM) or isinstance(s, (Ref, ListOf, MapOf)):
             return SV(s, terms.pop(0))
         if isinstance(s, Opt):
